@@ -826,3 +826,31 @@ impl Session {
         min(MAX_MESSAGE_SIZE as u16 / mtu / 2, 255) as _
     }
 }
+
+#[cfg(feature = "verif")]
+impl Session {
+    /// Verification hook: `[mtu, window_size, handshake_pending, established, send.level,
+    /// send.last_sent_seq_num, recv.level, recv.ack_level, recv.ack_seq, recv.rem_msg_len,
+    /// recv.buf_messages_ct, recv.buf.len()]`.
+    pub fn verif_state(&self) -> [u32; 12] {
+        [
+            self.mtu as u32,
+            self.window_size as u32,
+            self.handshake_pending as u32,
+            self.is_established() as u32,
+            self.send_window.level as u32,
+            self.send_window.last_sent_seq_num as u32,
+            self.recv_window.level as u32,
+            self.recv_window.ack_level as u32,
+            self.recv_window.ack_seq as u32,
+            self.recv_window.rem_msg_len as u32,
+            self.recv_window.buf_messages_ct as u32,
+            self.recv_window.buf.len() as u32,
+        ]
+    }
+
+    /// Verification hook: the private `initial_window_size`.
+    pub fn verif_initial_window_size(mtu: u16) -> u8 {
+        Self::initial_window_size(mtu)
+    }
+}
